@@ -13,7 +13,7 @@ use uom::si::length::meter;
 pub fn def() -> PropDef {
     PropDef {
         id: "C16",
-        rule: "inputs: helices with centre within +-3 m, radius 0.03-5 m, any phase, pitch 0 / +-subnormal / +-1e-17..1e2 m (one class per decade, equal weight), and points (a) anywhere in the drift volume, (b) within 1 cm of the helix with the z offset scaled by min(|h|,1) so that tiny pitches still give interior parameters; direct call of the closest-point routine through the hook with the callers' tolerance and iteration limit; plus the hook-free variants: t_inner / t_outer of fitted tracks against the cluster's innermost / outermost point, and the per-track parameters of a primary vertex against the vertex position (fitted tracks; hook-built sets of 2-6 tracks through or within 2 cm of a common point 0-30 cm off the beam axis, each circle also passing within 7 cm of the axis; the track sets of C14); oracle: t is not NaN and in [-pi, pi]; if strictly inside, dist(point, at(t)) <= min over s in [-pi, pi] of dist(point, at(s)) + 1e-9 m, the minimum found by a 20001-point grid with golden-section refinement around the best cells and both end points (at = the library's Track::at, so only the choice of t is judged); non-trivial = t strictly inside (-pi, pi); distinct by (pitch decade, case hash)",
+        rule: "inputs: helices with centre within +-3 m, radius 0.03-5 m, any phase, pitch 0 / +-subnormal / +-1e-17..1e2 m (one class per decade, equal weight), and points (a) anywhere in the drift volume, (b) within 1 cm of the helix with the z offset scaled by min(|h|,1) so that tiny pitches still give interior parameters, (c) bit-exactly on the helix axis (axis on the beam line or on the x axis), up to 3 pitches from z0; direct call of the closest-point routine through the hook with the callers' tolerance and iteration limit; plus the hook-free variants: t_inner / t_outer of fitted tracks against the cluster's innermost / outermost point, and the per-track parameters of a primary vertex against the vertex position (fitted tracks; hook-built sets of 2-6 tracks through or within 2 cm of a common point 0-30 cm off the beam axis, each circle also passing within 7 cm of the axis; the track sets of C14); oracle: t is not NaN and in [-pi, pi]; if strictly inside, dist(point, at(t)) <= min over s in [-pi, pi] of dist(point, at(s)) + 1e-9 m, the minimum found by a 20001-point grid with golden-section refinement around the best cells and both end points (at = the library's Track::at, so only the choice of t is judged); non-trivial = t strictly inside (-pi, pi); distinct by (pitch decade, case hash)",
         assumptions: &["closest_t is reached through reconstruction::verif_hooks::closest_t (same tolerance f64::EPSILON and 20 iterations as every caller)"],
         run,
         replay,
@@ -80,13 +80,33 @@ pub struct DirectCase {
     pub near: bool,
     /// point anywhere in the drift volume (r, phi, z)
     pub free: [Fx; 3],
+    /// 0: as above; 1: helix axis moved onto the beam line and the point put on
+    /// it (x = y = 0 exactly); 2: helix axis moved to (|x0|, 0) and the point put
+    /// on it at phi = 0 (bit-exact as well); the point's z is `free[2]` scaled
+    /// to +-3 pitches around z0
+    #[serde(default)]
+    pub on_axis: u8,
 }
 
 fn direct(c: &DirectCase, ev: &mut Ev) -> Outcome {
     ev.eval();
-    let h = un6(&c.helix);
+    let mut h = un6(&c.helix);
+    match c.on_axis {
+        1 => {
+            h[0] = 0.0;
+            h[1] = 0.0;
+        }
+        2 => {
+            h[0] = h[0].abs().clamp(0.01, 0.3);
+            h[1] = 0.0;
+        }
+        _ => {}
+    }
     let t = track_of(&h, 0.0, 0.0);
-    let p = if c.near {
+    let p = if c.on_axis != 0 {
+        let dz = c.free[2].0 / 1.152 * 3.0 * if h[5].is_finite() && h[5].abs() < 1.0 { h[5].abs() } else { 1.0 };
+        (h[0], 0.0, h[2] + dz)
+    } else if c.near {
         let (x, y, z) = at(&t, c.s.0);
         (x + c.off[0].0, y + c.off[1].0, z + c.off[2].0 * h[5].abs().min(1.0))
     } else {
@@ -97,6 +117,9 @@ fn direct(c: &DirectCase, ev: &mut Ev) -> Outcome {
     let tt = no_panic("closest_t", || rh::closest_t(&t, point))?;
     let dec = pitch_decade(h[5]);
     let interior = judge(&t, (px, py, pz), tt, "closest_t")?;
+    if c.on_axis != 0 {
+        ev.label("point-exactly-on-the-helix-axis");
+    }
     if interior {
         ev.label(&format!("interior@pitch:{dec}"));
         ev.nontrivial(fingerprint(&format!("{c:?}")));
@@ -109,8 +132,8 @@ fn direct(c: &DirectCase, ev: &mut Ev) -> Outcome {
 
 fn direct_case() -> impl Strategy<Value = DirectCase> {
     let off = || prop_oneof![10 => -0.01f64..=0.01, 1 => Just(0.0f64)];
-    (helix_params(), prop_oneof![10 => -3.0f64..=3.0, 1 => Just(0.0f64), 1 => Just(PI), 1 => Just(-PI)], (off(), off(), off()), prop::bool::weighted(0.8), (0.1092f64..=0.182, 0.0..(2.0 * PI), -1.152f64..=1.152))
-        .prop_map(|(helix, s, off, near, free)| DirectCase { helix: fx6(helix), s: Fx(s), off: [Fx(off.0), Fx(off.1), Fx(off.2)], near, free: [Fx(free.0), Fx(free.1), Fx(free.2)] })
+    (helix_params(), prop_oneof![10 => -3.0f64..=3.0, 1 => Just(0.0f64), 1 => Just(PI), 1 => Just(-PI)], (off(), off(), off()), prop::bool::weighted(0.8), (0.1092f64..=0.182, 0.0..(2.0 * PI), -1.152f64..=1.152), prop_oneof![18 => Just(0u8), 1 => Just(1u8), 1 => Just(2u8)])
+        .prop_map(|(helix, s, off, near, free, on_axis)| DirectCase { helix: fx6(helix), s: Fx(s), off: [Fx(off.0), Fx(off.1), Fx(off.2)], near, free: [Fx(free.0), Fx(free.1), Fx(free.2)], on_axis })
 }
 
 /// Cases drawn in the coordinates of the underlying Kepler problem
@@ -333,7 +356,7 @@ fn track_sets(c: &super::c14::TrackSet, ev: &mut Ev) -> Outcome {
 
 fn helix_only() -> impl Strategy<Value = PointsCase> {
     (proptest::collection::vec((1u8..=4, 0u16..800, 20u16..=60, any::<u64>()), 1..=4)).prop_map(|v| PointsCase {
-        groups: v.into_iter().map(|(spacing_mm, noise_um, n, seed)| Group { family: Family::Helix { spacing_mm, noise_um }, n, seed }).collect(),
+        groups: v.into_iter().map(|(spacing_mm, noise_um, n, seed)| Group { family: Family::Helix { spacing_mm, noise_um }, n, seed, flat: 0 }).collect(),
         duplicates: vec![],
     })
 }
